@@ -60,9 +60,16 @@ theorem calc_options_kinds (C : DTCodec IsoClass) (tbl : List OptionRow) (dflt :
     (q : List (Bytes × Bytes)) :
     (∃ o, calcOptions C tbl dflt q = .ok o) ∨ calcOptions C tbl dflt q = .error .valueError := by
   unfold calcOptions
-  rcases convertX_cases C tbl q dflt with ⟨o, ho⟩ | ho
-  · rw [ho]; exact checkValues_cases C tbl _ o
-  · rw [ho]; exact Or.inr rfl
+  cases !rawLicenseUrlsOk q
+  · simp only [cond_false]
+    rcases convertX_cases C tbl q dflt with ⟨o, ho⟩ | ho
+    · rw [ho]
+      dsimp only
+      cases h : !licenseUrlsOk tbl o
+      · simp only [cond_false]; exact checkValues_cases C tbl _ o
+      · simp only [cond_true]; exact Or.inr ⟨⟩
+    · rw [ho]; exact Or.inr rfl
+  · exact Or.inr rfl
 
 /-- the handlers' guarded block therefore answers 400 or goes on – it never lets an
 exception escape (status 500) -/
